@@ -1127,7 +1127,8 @@ impl Vm {
 
     fn throw_impl(&mut self) -> Result<(), Error> {
         self.handling_exception = true;
-        self.active_fiber_mut().error_ip = Some(self.ip);
+        let ip = self.ip;
+        self.active_fiber_mut().record_error_site(ip);
         self.unwind_stack()
     }
 
@@ -1203,11 +1204,8 @@ impl Vm {
         let returning = self.active_fiber_mut().frames.pop();
         // A throw site recorded in the function that is returning (a `return` in its finally
         // block replaced the exception) must not be reported for a later, unrelated error.
-        let recorded_site = self.active_fiber().error_ip;
-        if let (Some(frame), Some(site)) = (returning, recorded_site) {
-            if frame.closure.function.chunk.code.as_ptr_range().contains(&site) {
-                self.active_fiber_mut().error_ip = None;
-            }
+        if returning.is_some() && self.active_fiber().error_depth > self.active_fiber().frames.len() {
+            self.active_fiber_mut().error_ip = None;
         }
         // Handlers registered by the frame that has just been removed must not outlive it.
         let frame_count = self.active_fiber().frames.len();
@@ -1552,7 +1550,8 @@ impl Vm {
             Err(error) => {
                 let exc_object = self.new_root_obj_err_from_error(error);
                 self.poke(0, Value::ObjInstance(exc_object.as_gc()));
-                self.active_fiber_mut().error_ip = Some(self.ip);
+                let ip = self.ip;
+                self.active_fiber_mut().record_error_site(ip);
                 self.unwind_stack()?;
             }
         }
@@ -1580,6 +1579,7 @@ impl Vm {
             // report is the call in the surviving frame through which the exception passed.
             let call_site = self.active_fiber().frames[handler.frame_count - 1].ip;
             self.active_fiber_mut().error_ip = Some(call_site);
+            self.active_fiber_mut().error_depth = handler.frame_count;
         }
         self.active_fiber_mut().frames.truncate(handler.frame_count);
         self.handling_exception = handler.has_catch_block();
@@ -1806,7 +1806,8 @@ impl Vm {
         // Like an explicit throw, a failing operation is reported at its own site: a site left
         // behind by an earlier exception that is still passing through a finally block belongs to
         // another function's code.
-        self.active_fiber_mut().error_ip = Some(self.ip);
+        let ip = self.ip;
+        self.active_fiber_mut().record_error_site(ip);
         self.unwind_stack()
     }
 
